@@ -29,6 +29,7 @@ RULE = ('JSON: the full matrix dtype {bool,int8..uint64,float16/32/64, big-endia
         'with the real function, compare with a type-aware structural equality. non-trivial = distinct '
         'cases holding an array that is non-contiguous / Fortran / rank != 1 / exactly 10-11 long, an int '
         'key, or a quoted table cell.')
+RULE += ' Round 5: digit-only string keys in nested dictionaries; cluster ids beyond 2**53 in two-column tables.'
 EXHAUSTIVE = {'quick': True, 'thorough': True}
 EXHAUSTIVE_SCOPE = {'quick': 'array matrix (dtype x rank x layout x length) exhaustive; dictionaries, '
                              'tables and params sampled', 'thorough': 'same matrix; larger random part'}
